@@ -27,14 +27,18 @@ func (dk DependencyKeys) MarshalJSON() ([]byte, error) {
 	var sk = sortedKeys{}
 
 	if len(dk.Labels) > 0 {
-		sk.Labels = dk.Labels
+		// sort a copy, the keys belong to the caller
+		sk.Labels = make([]LabelDependent, len(dk.Labels))
+		copy(sk.Labels, dk.Labels)
 		sort.SliceStable(sk.Labels, func(i, j int) bool {
 			return sk.Labels[i].Index < sk.Labels[j].Index
 		})
 	}
 
 	if len(dk.Attributes) > 0 {
-		sk.Attributes = dk.Attributes
+		// sort a copy, the keys belong to the caller
+		sk.Attributes = make([]AttributeDependent, len(dk.Attributes))
+		copy(sk.Attributes, dk.Attributes)
 		sort.SliceStable(sk.Attributes, func(i, j int) bool {
 			return sk.Attributes[i].Name < sk.Attributes[j].Name
 		})
